@@ -6,11 +6,12 @@ from .. import cjit, corpus, kernels, layout_checks as L, lean, numeric
 
 def run(chk):
     chk.rule = ("expression kernels (rank 0/1; scalar/vector/tensor value shapes; affine and P2 geometry; cell points, facet points with "
-                "EVERY local facet, vertex points) compiled to C and compared with the independent oracle evaluating the expression "
+                "EVERY local facet and permutation code, vertex points) compiled to C and compared with the independent oracle evaluating the expression "
                 "pointwise, rel. tol 1e-10; descriptor fields (IR, generated C and cffi read-back) vs the Lean descriptor model; "
                 "distinct = expression kernel × entity.")
     chk.trusted += ["harness/oracle.py (own sequence of UFL passes + NumPy interpreter + Basix)",
-                    "facet expressions are compared for permutation code 0 only (other codes are C03's subject)"]
+                    "facet expressions are run for every (local facet, permutation code): the oracle evaluates at the facet points "
+                    "rotated/reflected as the code documents (harness/oracle.permuted_facet_points)"]
     chk.lean(L.LAYOUT_MODULE, L.C04_THEOREMS, extra_files=L.LAYOUT_FILES)
     chk.lean("FfcxProofs.C08", ["Ffcx.LNodes.subscript_in_extent", "Ffcx.LNodes.flatten_inj"])
     chk.lean("FfcxProofs.C17", ["Ffcx.LNodes.global_index_value"])
@@ -20,7 +21,7 @@ def run(chk):
     reps = 3 if chk.tier == "thorough" else 1
 
     def work(i):
-        return numeric.compare_entry(ents[i], {}, seed=chk.seed * 31 + i, reps=reps, all_entities=True)
+        return numeric.compare_entry(ents[i], {}, seed=chk.seed * 31 + i, reps=reps, all_entities=True, all_perms=True)
     res = cjit.parallel_map(work, list(range(len(ents))))
     for i, (st, r) in sorted(res.items()):
         e = ents[i]
